@@ -408,8 +408,38 @@ class SpecProp(Prop):
                 'nontrivial': is_nontrivial(line, k, None)}
 
 
+def ill_formed_bounds(g):
+    for t in gen.subterms(g):
+        if t[0] == 'rep' and t[3] is not None and t[2] > t[3]:
+            return True
+        if t[0] == 'sep' and t[4] is not None and t[3] > t[4]:
+            return True
+    return False
+
+
 class C02(SpecProp):
-    name = 'C02'; module = 'C02'; claimed = False
+    name = 'C02'; module = 'C02'; claimed = True
+
+    def cases(self, tier, seed):
+        items = stream_items(tier, seed, self.streams)
+        lines = []
+        for n, (g, inputs, kw) in enumerate(items):
+            kw = dict(kw)
+            kind = kw.pop('kind', 'str' if n % 2 == 0 else 'slice')
+            tag = 'w' if ill_formed_bounds(g) else 's'
+            lines.append(case_line(f'{tag}{n}', g, inputs, kind=kind, **kw))
+        return lines
+
+    def compare(self, line, k, impl_M, model_M, spec_S):
+        res = super().compare(line, k, impl_M, model_M, spec_S)
+        if line.startswith('w') and res['pred']:
+            im = parse_M(impl_M)
+            # literal reading of the property: with at_least > at_most no count is within bounds
+            if im['kind'] == 'R' and im['out'] is not None:
+                res['pred'] = False
+                res['why'] = 'D14 ill-formed bounds: the repetition succeeded although at_least > at_most'
+        return res
+
     title = 'repetition and separators: bounds, greediness, leading/trailing'
     streams = ['c02']
     why = 'items / count / remainder differ from the greedy bounded reading'
